@@ -38,7 +38,7 @@ SHARD_TIMEOUT = {"quick": 300, "thorough": 1500}
 def all_cases(tier: str, seed: int):  # noqa: ANN201
     yield from treecheck.cases("c02", tier, seed, 4000, 60000, extra=lambda: itertools.chain(treefam.failure_then_shield(), treefam.shielded_group_failure(),
                                                                   treefam.start_sweep_uncancelled_caller(),
-                                                                  treefam.failed_body_late_spawn()))
+                                                                  treefam.failed_body_late_spawn(), treefam.fresh_cancellation()))
 
 
 def shards(tier: str, seed: int) -> list[dict]:
